@@ -3107,3 +3107,8 @@ M("C01", "events-rebound-when-empty", "pv_to_puml/data_ingestion.py",
   "    if events is None:\n        events = {}\n    for graph_solution in graph_solutions:",
   "    if not events:\n        events = {}\n    for graph_solution in graph_solutions:",
   "R1.30", "an empty model passed in is replaced, the caller saves its own empty dict (seed C01-x)")
+
+M("C07", "breaks-with-path-set-extended", CUG,
+  "    update_graph_for_break_events_with_path_to_root_event(\n        break_events_with_path_back_to_root,",
+  "    break_events_with_path_back_to_root.update(loop.end_events)\n    update_graph_for_break_events_with_path_to_root_event(\n        break_events_with_path_back_to_root,",
+  "R7.11 R7.13 R7.22", "a computed set is extended in place before it is handed on")
